@@ -122,3 +122,87 @@ def c30(ctx):
 
 
 FAMILY = {"C01": c01, "C02": c02, "C30": c30}
+
+
+# ------------------------------------------------------------------------------------------ C18
+def _tlc_ledger(ctx, job, stride, offset):
+    out = ctx.path("gen", "led_%s_%d.json" % (job, offset))
+    r = ctx.tlc("GenLedger", "GenLedger.cfg", name="gen_led_%s_%d" % (job, offset), workers=1, timeout=1500, heap="6g",
+                env={"VERIF_JOB": job, "VERIF_OUT": out, "VERIF_STRIDE": str(stride), "VERIF_OFFSET": str(offset)})
+    r.require_ok("ledger table " + job)
+    rows = [l for l in r.out.splitlines() if l.startswith('<<"ROWS"')]
+    n = int(rows[0].split(",")[1].strip(" >")) if rows else 0
+    return out, n, r
+
+
+def c18(ctx):
+    """Auth ledger: (B) TLC tables (MatchTopic relation; small ledgers x query battery with the permitted
+    verdicts), (C) seeded random ledgers whose repeated evaluations are recorded and judged by TraceLedger."""
+    from concurrent.futures import ThreadPoolExecutor
+    depth = 3 if ctx.quick else 4
+    table, n_match, r0 = _tlc_table(ctx, "ledger", depth, "ledger%d" % depth)
+    vt = ctx.go_build("vtables")
+    out = ctx.path("gen", "c18_match.json")
+    ctx.run([vt, "c18-table", table, out], timeout=3000)
+    res = json.load(open(out))
+    _report(ctx, res)
+    evaluations, distinct, samples = res["evaluations"], res["distinct_nontrivial"], list(res["samples"])
+    # ledger tables: quick = one quarter of every family (which quarter depends on the seed), thorough = all
+    stride = 4 if ctx.quick else 1
+    jobs = [(j, stride, (ctx.seed + k) % stride) for k, j in enumerate(("user", "global", "auth"))]
+    if not ctx.quick:
+        jobs = [(j, 4, o) for j in ("user", "global", "auth") for o in range(4)]   # four shards each, in parallel
+    with ThreadPoolExecutor(max_workers=6) as ex:
+        tabs = list(ex.map(lambda a: _tlc_ledger(ctx, *a), jobs))
+    vl = ctx.go_build("vledger")
+    repeat = 25
+    nled = 0
+    for (job, _, off), (tab, n, _) in zip(jobs, tabs):
+        o = ctx.path("gen", "c18_%s_%d.out.json" % (job, off))
+        ctx.run([vl, "table", tab, o, str(repeat)], timeout=3000)
+        rj = json.load(open(o))
+        _report(ctx, rj)
+        nled += n
+        evaluations += rj["evaluations"]
+        distinct += rj["distinct_nontrivial"]
+        samples += rj["samples"][:1]
+    ctx.log("TLC emitted %d match rows and %d small ledgers (families user/global/auth); %d evaluations of the real ledger" % (n_match, nled, evaluations))
+    # random larger ledgers, judged by TLC
+    tr = ctx.path("traces", "c18.ndjson")
+    nrand = 40 if ctx.quick else 400
+    ctx.run([vl, "random", tr, str(nrand), str(repeat)], timeout=3000)
+    verdict = ctx.path("gen", "c18_verdict.json")
+    r = ctx.tlc("TraceLedger", "TraceLedger.cfg", name="c18trace", workers=1, timeout=3000, heap="8g",
+                env={"VERIF_TRACE": tr, "VERIF_OUT": verdict})
+    if not os.path.exists(verdict):
+        import sys
+        sys.stderr.write(r.tail(40))
+        raise Inconclusive("TraceLedger produced no verdict")
+    v = json.load(open(verdict))
+    lines = open(tr).readlines()
+    for b in v["bad"]:
+        e = json.loads(lines[b["line"] - 1])
+        ctx.violation("TraceLedger rejects the recorded evaluations of line %d (%s): %s; permitted %s, observed %s" %
+                      (b["line"], e["kind"], b["complaints"], b["permitted"], sorted(set(e["outs"]))), {"line": e, "complaints": b["complaints"]})
+        if len(ctx.violations) >= 10:
+            break
+    ctx.cov.update(
+        _level="model_checking", exhaustive=not ctx.quick,
+        states=max(r.distinct, 1), transitions=max(r.generated, 1),
+        traces_validated_against_impl=v["lines"], evaluations=evaluations + v["lines"] * repeat, distinct_nontrivial=distinct,
+        rule="Ledger.tla defines AuthDecision / AclPermitted (user rules first, global rules in list order, first deciding rule wins, "
+             "MqttTopics!LedgerMatchLevels for filters). (B) TLC emits the complete MatchTopic table to depth %d (%d rows) and %d small ledgers "
+             "(family user: one user with every map of <= 2 of six filters x 4 access levels and 3 global tails; family global: every sequence of "
+             "<= 2 of 58 global rules with client/username/remote patterns; family auth: 5 user tables x every sequence of <= 2 of 26 auth rules; %s) "
+             "each with a battery of queries and the set of permitted verdicts; every query is evaluated %d times on the real Ledger (alternating "
+             "a shared and a freshly built ledger, i.e. fresh map iteration orders): all verdicts must be equal and permitted. (C) %d random "
+             "ledgers (<= 3 users with <= 3 overlapping filters, <= 4 auth and <= 4 ACL rules with prefix patterns) x 4 clients x 12 topics x "
+             "read/write + 3 passwords, %d evaluations each, recorded and judged line by line by TLC (TraceLedger: unstable / not-permitted). "
+             "distinct_nontrivial = matching table rows + (ledger, verdict set) pairs decided by a rule." %
+             (depth, n_match, nled, "one quarter of each family chosen by the seed" if ctx.quick else "all of them", repeat, nrand, repeat),
+        samples=samples, table_rows=n_match, ledgers=nled, random_lines=v["lines"])
+    ctx.assumptions += ["rule patterns with '*' are only exercised on values longer than the prefix (the property does not say whether 'ab*' matches 'ab')",
+                        "filters with '#' only in last position"]
+
+
+FAMILY["C18"] = c18
